@@ -66,6 +66,8 @@ pub struct E1<'c> {
     /// a recorded finding has manifested: its after-effects are unspecified, stop the run
     pub stop_run: bool,
     pub restored_ts_stale: bool,
+    /// references returned by q_ref that are held until the next mutable borrow (address, copy)
+    pub held: Vec<(usize, usize, Vec<u32>)>,
 }
 
 pub fn expected_obs(ev: &mut Eval, prog: &Program, n: usize, arg: u32, deep: bool) -> Result<Obs, Abort> {
@@ -143,7 +145,7 @@ impl<'c> E1<'c> {
         fault::MASK.store(case.fault_mask, SeqCst);
         let db = SimDatabase::new(&case.prog, &world);
         let oracles = crate::oracles::for_case(case);
-        E1 { case, db: Some(db), world, out: RunOut::default(), step: 0, never: Default::default(), oracles, queries: 0, cycle_panicked_in_rev: false, fb_defect_seen: false, injected_now: false, poisoned_now: false, injected_in_rev: false, last_fault_cb: None, stop_run: false, restored_ts_stale: false }
+        E1 { case, db: Some(db), world, out: RunOut::default(), step: 0, never: Default::default(), oracles, queries: 0, cycle_panicked_in_rev: false, fb_defect_seen: false, injected_now: false, poisoned_now: false, injected_in_rev: false, last_fault_cb: None, stop_run: false, restored_ts_stale: false, held: vec![] }
     }
 
     fn db(&self) -> &SimDatabase {
@@ -542,6 +544,39 @@ impl<'c> E1<'c> {
         }
     }
 
+    /// C23: every reference returned by a tracked function keeps its value until the database is
+    /// next borrowed mutably.
+    fn revalidate_held(&mut self, si: usize) {
+        for (addr, node, copy) in &self.held {
+            // SAFETY (of the check itself): the reference was obtained from `&db` and no `&mut db`
+            // happened since; if salsa freed or changed the value this is exactly the bug we look for
+            let now: &Vec<u32> = unsafe { &*(*addr as *const Vec<u32>) };
+            self.out.add("held_reference_revalidations", 1);
+            let same = now.len() == copy.len() && now.iter().zip(copy.iter()).all(|(a, b)| a == b);
+            if !same {
+                self.out.viol("held_reference_changed", si, format!("reference returned by q_ref(node {node}) changed while the database was only borrowed immutably: {copy:?} -> len {}", now.len()));
+            }
+        }
+    }
+
+    pub fn hold_ref(&mut self, n: usize) {
+        let db = self.db.as_ref().unwrap();
+        if db.shared.prog.nodes[n].kind != Kind::Ref {
+            return;
+        }
+        let k = db.shared.key(n);
+        let r = catch_unwind(AssertUnwindSafe(|| {
+            let v: &Vec<u32> = q_ref(db, k);
+            (v as *const Vec<u32> as usize, v.clone())
+        }));
+        if let Ok((addr, copy)) = r {
+            self.held.push((addr, n, copy));
+            self.out.bump("references_held");
+        }
+        let info = crate::oracles::StepInfo::other("hold");
+        self.drain(&info);
+    }
+
     pub fn run(mut self) -> RunOut {
         if let Some(k) = self.case.panic_at {
             fault::arm(k);
@@ -550,8 +585,11 @@ impl<'c> E1<'c> {
         for (si, st) in hist.iter().enumerate() {
             self.step = si;
             self.out.steps += 1;
+            self.revalidate_held(si);
             if st.is_mut() {
                 self.oracles.before_mut(self.db.as_ref().unwrap(), si, &mut self.out);
+                // the database is about to be borrowed mutably: held references end here
+                self.held.clear();
             }
             for _attempt in 0..4 {
                 self.injected_now = false;
